@@ -392,6 +392,16 @@ printf("debug> #if get_operator() token=%s operation=%d precedence=%d\n", token,
       if (next_operator.precedence < precedence)
       {
         tokens_push(asm_context, token, token_type);
+
+        // Finish the pending operation of this level before handing the
+        // value back to the lower precedence level.
+        if (oper.operation != OPER_NONE)
+        {
+          n = eval_operation(oper.operation, n1, n);
+          if (n == -1) { return -1; }
+        }
+
+        *num = n;
         return 0;
       }
         else
